@@ -23,7 +23,7 @@ func isReleaseCall(cc *ssa.CallCommon) (string, bool) {
 
 func runC06(c *Ctx) {
 	p, r := c.P, c.R
-	r.Explanation = "Decides the pairing discipline between pipeline-set mutations and reference-count updates, each a necessary condition of 'in use iff some registered pipeline lists the node': reference counts are written, and graphMap.Store/Delete called, only in Broker methods under Broker.lock held for writing; every path through a Store increments once per element of the stored pipeline's flattened node set in a full loop before the successful return; every path through a Delete, or through a Store that may replace an entry, either established that no such pipeline exists or releases exactly the ids obtained from graphMap.Nodes for the same key on the same map; increments and releases iterate the same abstraction (the flattened set of the linked list); the release operation's full decision table over count in {0,1,>=2} x force (refuse without effect / unregister and hand back for closing / decrement); every node handed back for closing is closed exactly once, outside the lock, on every path; RemovePipelineAndNodes returns true after the delete. The invariant over arbitrary call histories as such is not decided; these are its inductive-step obligations. C06.registry: the registry only gains fresh records around caller-supplied nodes; C06.flatten: the flattened set contains every linked node; C06.carry: an overwrite decides the count carry-over from the existing entry's policy. C06.close gives-up-only-at-plain-node: NodeController.Close returns without calling a Close only for a node found to be neither a Closer nor a NodeUnwrapper."
+	r.Explanation = "Decides the pairing discipline between pipeline-set mutations and reference-count updates, each a necessary condition of 'in use iff some registered pipeline lists the node': reference counts are written, and graphMap.Store/Delete called, only in Broker methods under Broker.lock held for writing; every path through a Store increments once per element of the stored pipeline's flattened node set in a full loop before the successful return; every path through a Delete, or through a Store that may replace an entry, either established that no such pipeline exists or releases exactly the ids obtained from graphMap.Nodes for the same key on the same map; increments and releases iterate the same abstraction (the flattened set of the linked list); the release operation's full decision table over count in {0,1,>=2} x force (refuse without effect / unregister and hand back for closing / decrement); every node handed back for closing is closed exactly once, outside the lock, on every path; RemovePipelineAndNodes returns true after the delete. The invariant over arbitrary call histories as such is not decided; these are its inductive-step obligations. C06.registry: the registry only gains fresh records around caller-supplied nodes; C06.flatten: the flattened set contains every linked node; C06.carry: an overwrite decides the count carry-over from the existing entry's policy. C06.close gives-up-only-at-plain-node: NodeController.Close returns without calling a Close only for a node found to be neither a Closer nor a NodeUnwrapper. C06.step: the count of a registered node only moves by one. C06.close who-may-close: a to-be-closed node is produced only by unregisterNode."
 	r.NotDecided = []string{"the reference-count invariant over arbitrary histories (a reachability question over broker states)", "that user Close implementations are idempotent"}
 	tb := p.NewTerms(nil)
 	must := c.MustLocks()
@@ -38,6 +38,23 @@ func runC06(c *Ctx) {
 				if fa, ok := x.Addr.(*ssa.FieldAddr); ok && typeShort(fa.X.Type()) == "eventlogger.nodeUsage" && !isFresh(fa.X) {
 					if fa.X.Type().Underlying().(*types.Pointer).Elem().Underlying().(*types.Struct).Field(fa.Field).Name() == "referenceCount" {
 						what = "referenceCount write"
+						// ... and the count of a registered node only ever MOVES BY ONE (a pipeline that lists the node came
+						// or went): the value stored is the record's own count plus or minus one. A count that is assigned —
+						// reset by a "safety net", recomputed from one event type's pipelines — no longer says how many
+						// pipelines (of every event type) list the node
+						vt := tb.Of(x.Val)
+						okStep := false
+						if bo, isB := x.Val.(*ssa.BinOp); isB && (bo.Op == token.ADD || bo.Op == token.SUB) {
+							if k, isC := constInt(bo.Y); isC && k == 1 {
+								if ld, isLd := bo.X.(*ssa.UnOp); isLd && ld.Op == token.MUL {
+									if fa2, isFA := ld.X.(*ssa.FieldAddr); isFA && fa2.X == fa.X && fa2.Field == fa.Field {
+										okStep = true
+									}
+								}
+							}
+						}
+						r.Check(okStep, "C06.step", p.ShortFn(f)+":referenceCount", p.InstrPos(in), "the count of a registered node moves by one",
+							"the reference count of a registered node is ASSIGNED ("+shortStr(vt.String(), 80)+") instead of moved by one: it no longer follows the pipelines that list the node — a node still listed by a pipeline (of another event type, say) is closed and unregistered, or one that nobody lists is kept for good")
 					}
 				}
 			case ssa.CallInstruction:
@@ -352,6 +369,7 @@ func runC06(c *Ctx) {
 	// --- C06.close: every node handed back for closing is closed exactly once, outside the lock
 	c.ruleCloseOnce()
 	c.ruleCloserFirst("C06.close")
+	c.ruleWhoMayClose("C06.close")
 
 	// --- C06.true
 	if fn := c.Fn("C06.true", PkgRoot, "Broker", "RemovePipelineAndNodes"); fn != nil {
@@ -730,7 +748,7 @@ func (c *Ctx) ruleOptsTable(rule string, names []string) {
 
 func runC07(c *Ctx) {
 	p, r := c.P, c.R
-	r.Explanation = "Decides the overwrite-policy clauses structurally: both option constructors store exactly the two valid policies and reject everything else without storing (decision table over the policy value); RegisterNode cannot reach its map assignment when the EXISTING entry's policy is DenyOverwrite, the new entry carries the option's policy and, on overwrite, the old count; RegisterPipeline tests the policy of the existing entry whose key equals def.PipelineID in the graph of def.EventType, cannot reach Store when it is DenyOverwrite, and the new entry carries the option's policy; a successful call performs exactly one Store of a fresh registration whose root was linked by this very call (with C04.immutable: no in-place edits of published lists — the structural premise of 'each Send sees exactly one version'); policies live only inside the entries that removal deletes. What a concurrent Send observes during the swap is sync.Map semantics (A4). C07.defaults: both policies default to AllowOverwrite and getOpts applies every non-nil option of the whole list to the one defaults-initialised struct, returning it or the option error. C07.section: validation and commit in one critical section. C07.range / C07.copy: the pipeline set is read through graphMap.Range over the one sync.Map; no second copy refreshed from a reader's side."
+	r.Explanation = "Decides the overwrite-policy clauses structurally: both option constructors store exactly the two valid policies and reject everything else without storing (decision table over the policy value); RegisterNode cannot reach its map assignment when the EXISTING entry's policy is DenyOverwrite, the new entry carries the option's policy and, on overwrite, the old count; RegisterPipeline tests the policy of the existing entry whose key equals def.PipelineID in the graph of def.EventType, cannot reach Store when it is DenyOverwrite, and the new entry carries the option's policy; a successful call performs exactly one Store of a fresh registration whose root was linked by this very call (with C04.immutable: no in-place edits of published lists — the structural premise of 'each Send sees exactly one version'); policies live only inside the entries that removal deletes. What a concurrent Send observes during the swap is sync.Map semantics (A4). C07.defaults: both policies default to AllowOverwrite and getOpts applies every non-nil option of the whole list to the one defaults-initialised struct, returning it or the option error. C07.section: validation and commit in one critical section. C07.range / C07.copy: the pipeline set is read through graphMap.Range over the one sync.Map; no second copy refreshed from a reader's side. C07.store-policy: every stored registration carries a policy."
 	r.NotDecided = []string{"what a concurrent Send observes while the Store happens (sync.Map semantics, A4)"}
 	_ = p
 	c.ruleOptionDefaults()
@@ -752,6 +770,7 @@ func runC07(c *Ctx) {
 	// refreshed from a reader's side (C04.copy)
 	c.ruleGraphMap("C07.range", "")
 	c.rulePipelineCopies("C07.copy")
+	c.ruleStoreSites("", "C07.store-policy")
 	c.ruleOneSection("C07.section")
 	// --- C07.swap (shares the commit rule: exactly one Store of a fresh registration linked by this call)
 	c.ruleCommit()
